@@ -83,7 +83,7 @@ func drawC17(src *vs.Src) *c17Params {
 			p.Auth = true
 		}
 	}
-	p.Variant = pickStr(src, []string{"cover", "cover", "cover", "gap", "gap", "beyond", "conflict-first", "conflict-later", "seq-flood"})
+	p.Variant = pickStr(src, []string{"cover", "cover", "cover", "gap", "gap", "beyond", "conflict-first", "conflict-later", "seq-flood", "interleave", "interleave"})
 	p.Pieces = 2 + src.Intn(12)
 	return p
 }
@@ -330,7 +330,33 @@ func c17Frag(c *Case, src *vs.Src, p *c17Params, r *Result) *Result {
 	var plan []peer.FragSpec
 	var bodyLen int
 	targetType := map[string]byte{"CERT": ref.TCertificate, "SKX": ref.TServerKeyExchange, "SH": ref.TServerHello, "CKE": ref.TClientKeyExchange, "CV": ref.TCertificateVerify}[p.Target]
+	var stash *peer.FragSpec // interleave: the second part of the target message, sent inside the next message
 	h.Peer.FragPlan = func(typ byte, body []byte) []peer.FragSpec {
+		// interleaving needs a following handshake message with a body, sent before ChangeCipherSpec, and the
+		// earlier message must be the one that completes first (a complete later message overtaking an
+		// incomplete earlier one is message reordering, which is C19's subject and a known limitation there)
+		interleave := p.Variant == "interleave" && ((realIsClient && (p.Target == "SH" || p.Target == "CERT")) || (!realIsClient && p.Target == "CERT"))
+		if interleave {
+			switch {
+			case typ == targetType && plan == nil && len(body) >= 2:
+				// a1 now; a2 travels between the two parts of the following message: a1 b1 a2 b2
+				cut := 1 + src.Intn(len(body)-1)
+				bodyLen = len(body)
+				plan = []peer.FragSpec{{Off: 0, Len: cut}, {Off: cut, Len: len(body) - cut}}
+				stash = &peer.FragSpec{Type: typ, SeqOff: -1, Off: cut, Len: len(body) - cut, Total: len(body), Data: append([]byte(nil), body[cut:]...)}
+				return plan[:1]
+			case stash != nil && len(body) >= 2:
+				st := *stash
+				stash = nil
+				cut := 1 + src.Intn(len(body)-1)
+				return []peer.FragSpec{{Off: 0, Len: cut}, st, {Off: cut, Len: len(body) - cut}}
+			case stash != nil:
+				st := *stash
+				stash = nil
+				return []peer.FragSpec{st, {Off: 0, Len: len(body)}}
+			}
+			return nil
+		}
 		if typ != targetType || plan != nil {
 			return nil
 		}
